@@ -1,6 +1,7 @@
 """./check configuration for C20."""
 
 PROP = dict(
+    race=True,
     module="GolibsVerif.Theorems.C20", namespace="GolibsVerif.C20",
     rule="C20.mw: scenarios of 1..64 concurrent requests (distinct ids in host/method/raddr/request_uri/header/body/context value/"
          "URL query) through one real LogMiddleware on httptest recorders, handlers that sleep/yield, set or omit the status, write "
